@@ -801,6 +801,58 @@ def r7b_line_codec_handover(rep, src):
         raise AnalysisError('%s: fewer than twenty calling conventions interpreted' % f.site)
 
 
+def r10_parser_by_interpretation(rep, src):
+    """the paragraph parser interpreted (sa.heap, CPython's regex engine on decided lines) on a family of texts -- fields with a value,
+    with NO value, with the value on the following lines, with a blank first line of the value, with tabs and blanks around the colon;
+    comment lines; blank lines in front of and after the paragraph -- against the fields the text holds, in order, with their values
+    (leading / trailing blanks of the first line dropped, the continuation lines verbatim).  Whatever the loop of the parser looks like."""
+    from .. import heap as H
+    mod = src.mod('deb822')
+    f = mod.method('Deb822', '_internal_parser')
+    if f is None:
+        raise AnalysisError('deb822:Deb822._internal_parser not found')
+    rep.saw_func(f)
+    TEXTS = [
+        ('A: b\nEmpty:\nC: d\n', [('A', 'b'), ('Empty', ''), ('C', 'd')]),
+        ('Tag:\n', [('Tag', '')]),
+        ('A: b\nLast:', [('A', 'b'), ('Last', '')]),
+        ('Multi:\n x\n y\nD: e\n', [('Multi', '\n x\n y'), ('D', 'e')]),
+        ('M: first\n  two\n\tthree\nD: e\n', [('M', 'first\n  two\n\tthree'), ('D', 'e')]),
+        ('Blank:\n .\n x\n', [('Blank', '\n .\n x')]),
+        ('#c\nA: b\n#mid\n more\n\nB: c\n', [('A', 'b\n more')]),
+        ('\n\nA:\nB:  x  \n', [('A', ''), ('B', 'x')]),
+        ('A:b\nB :c\nC:\t d\n', [('A', 'b'), ('B', 'c'), ('C', 'd')]),
+        ('A: b: c\nUrl: http://x/y\n', [('A', 'b: c'), ('Url', 'http://x/y')]),
+        ('A: 0\nB: False\nC: \u00e9\n', [('A', '0'), ('B', 'False'), ('C', '\u00e9')]),
+    ]
+    bad, n = None, 0
+    for text, want in TEXTS:
+        for form in ('str', 'lines', 'bytes lines'):
+            stored = []
+            heap = H.Heap(mod, hooks={'__setitem__': lambda it, a, k, stored=stored: stored.append((a[1], a[2])),
+                                      '.decode': lambda it, a, k: (a[1].decode('utf-8') if isinstance(a[1], bytes) else a[1]) if len(a) > 1 else a[0]})
+            heap.native_regex = True
+            it = H.Interp(heap)
+            me = heap.alloc('Deb822', {'decoder': heap.alloc('Decoder', {}, name='@decoder'), 'encoding': 'utf-8'})
+            arg = text if form == 'str' else heap.new_list(text.splitlines(True) if form == 'lines' else [l_.encode('utf-8') for l_ in text.splitlines(True)])
+            n += 1
+            try:
+                it.call(H.Closure(f.node, {}, me, f.cls), [arg, None, None])
+                got = [(k_.spelling if isinstance(k_, H.Key) else k_, v_.concrete() if hasattr(v_, 'concrete') else v_) for k_, v_ in stored]
+            except H.Raised as x:
+                got = 'raises %s (line %d)' % (x.exc, x.lineno)
+            if got != want and bad is None:
+                bad = 'the text %r (given as %s) is read as %s; it holds the fields %r%s' % (
+                    text, form, got if isinstance(got, str) else repr(got), want,
+                    ': a field without a value is a field (its value is the empty text)' if not isinstance(got, str) and len(got) < len(want) else '')
+    rep.analysed['paths'] += n
+    what = 'the parser reads the fields of a paragraph, in order, with their values (interpreted texts)'
+    if bad:
+        rep.fail('C02.R10', f.site, what, bad, where=f.where)
+    else:
+        rep.ok('C02.R10', f.site, what, '%d texts in three input forms' % len(TEXTS))
+
+
 def r9_paragraphs_share_no_container(rep, src):
     """the paragraphs that one iter_paragraphs() call produces are independent objects: what one of them spells, holds or caches does
     not reach the next.  Ownership rule on every iter_paragraphs of the module: a builtin container (dict / list / set display or
@@ -982,13 +1034,24 @@ def check(src, rep, tier):
     rep.need('C02.R4', 5)
     rep.need('C02.R5', 1)
     rep.need('C02.R6', 2)
-    M = Model(src, rep)
-    rep.guard('C02.R1', r1_agreement, src, M)
-    rep.guard('C02.R2', r2_normalisation, src, M)
-    rep.guard('C02.R3', r3_twins, src, M)
-    rep.guard('C02.R4', r4_accumulation, src, M)
-    rep.guard('C02.R5', r5_key_acceptance, src, M)
-    rep.guard('C02.R6', r6_filter_before_split, src, M)
+    rep.need('C02.R10', 1)
+    n_v, n_e = len(rep.violations), len(rep.errors)
+    rep.guard('C02.R10', r10_parser_by_interpretation, src)
+    parser_holds = len(rep.violations) == n_v and len(rep.errors) == n_e
+    # the language-level readings: the regex cascade of the parser loop against the dump template -- exact for EVERY value of the
+    # grammar when the loop is in the model's vocabulary; where it is not, the interpreted texts decide
+    soft = common.SoftErrors(rep, lambda: parser_holds, 'the interpreted texts (C02.R10), which are read as written')
+    M = soft.guard('C02.R1', lambda r_: Model(src, r_))
+    if M is not None:
+        soft.guard('C02.R1', r1_agreement, src, M)
+        soft.guard('C02.R2', r2_normalisation, src, M)
+        soft.guard('C02.R3', r3_twins, src, M)
+        soft.guard('C02.R4', r4_accumulation, src, M)
+        soft.guard('C02.R5', r5_key_acceptance, src, M)
+        soft.guard('C02.R6', r6_filter_before_split, src, M)
+    elif parser_holds:
+        for r_ in ('C02.R1', 'C02.R2', 'C02.R3', 'C02.R4', 'C02.R5', 'C02.R6'):
+            rep.min_instances[r_] = 0
     rep.need('C02.R7', 1)
     n_v, n_e = len(rep.violations), len(rep.errors)
     rep.guard('C02.R7', r7b_line_codec_handover, src)
